@@ -5,7 +5,7 @@ package main
 // Implementation under test: the fzf binary built from the working tree, driven through pty.go.
 // The preview command is a logging script: it appends `start <pid> <id> <kind> N={n} [Q={q}] [P={+n}]` to
 // ./LOG (the session's private directory), then behaves according to <kind> (instant, short, slow, never
-// ending, silent or printing), then appends `end <pid>`.
+// ending, silent or printing; or closing its output and running on: kinds eof_*), then appends `end <pid>`.
 //
 // Checks (spec = PreviewSpec evaluated by the extracted Coq code on what the implementation did):
 //   caught_up        (liveness, eventually within 10 s, whole session re-run twice before reporting)
@@ -137,6 +137,54 @@ func (ck c20Chunk) kind() string {
 	return fmt.Sprintf("chunk_%d_%.2f_%d_%.2f_%d_%s", ck.C1, ck.P1, ck.C2, ck.P2, ck.Total, t)
 }
 
+// eof kinds: eof_<lines>_<pre>_<post>: <lines> tagged lines, <pre> s, the command closes its stdout and stderr (fzf
+// reads EOF), then it runs on for <post> s, or for ever (post = "hang").  The end of the output and the end of the
+// process are different moments; the command stays "the preview command" (superseded -> terminated, none survives).
+type c20EOF struct {
+	Lines int
+	Pre   float64
+	Post  float64
+	Hang  bool
+}
+
+func c20ParseEOF(kind string) (c20EOF, bool) {
+	f := strings.Split(kind, "_")
+	if len(f) != 4 || f[0] != "eof" {
+		return c20EOF{}, false
+	}
+	var e c20EOF
+	e.Lines, _ = strconv.Atoi(f[1])
+	e.Pre, _ = strconv.ParseFloat(f[2], 64)
+	if f[3] == "hang" {
+		e.Hang = true
+	} else {
+		e.Post, _ = strconv.ParseFloat(f[3], 64)
+	}
+	return e, true
+}
+func (e c20EOF) kind() string {
+	post := "hang"
+	if !e.Hang {
+		post = strconv.FormatFloat(e.Post, 'f', -1, 64)
+	}
+	return fmt.Sprintf("eof_%d_%s_%s", e.Lines, strconv.FormatFloat(e.Pre, 'f', -1, 64), post)
+}
+func c20GenEOF(r *RNG) string {
+	e := c20EOF{Lines: Pick(r, []int{1, 1, 1, 0, 3}), Pre: Pick(r, []float64{0, 0, 0, 0.05, 0.3}), Hang: true}
+	if r.Chance(1, 4) {
+		e.Hang, e.Post = false, Pick(r, []float64{0.2, 1, 6})
+	}
+	return e.kind()
+}
+
+// the command prints the OUT: marker of its arguments (so the window text can be checked)
+func c20KindPrints(kind string) bool {
+	if e, ok := c20ParseEOF(kind); ok {
+		return e.Lines > 0
+	}
+	return kind == "instant" || kind == "short" || kind == "slowverbose" || kind == "foreverinc"
+}
+
 // hidden flag of the preview window after an action (no alternative layout: activePreviewOpts is previewOpts)
 func c20WinHidden(initHidden, hidden bool, a string) bool {
 	switch {
@@ -213,6 +261,15 @@ case $kind in
   sleep $5
   while [ $i -le $6 ]; do echo "L$i:$id:$n"; i=$((i+1)); done
   [ $7 = hang ] && sleep 100000 ;;
+ eof_*)
+  # eof_<lines>_<pre>_<post>: print <lines> tagged lines, wait <pre> s, CLOSE the output (stdout and stderr go to
+  # /dev/null: fzf reads EOF while this process lives on), then run for <post> s more, or for ever (hang)
+  old=$IFS; IFS=_; set -- $kind; IFS=$old
+  i=0
+  while [ $i -lt $2 ]; do echo "$tag"; i=$((i+1)); done
+  [ $3 = 0 ] || sleep $3
+  exec >/dev/null 2>&1
+  if [ $4 = hang ]; then sleep 100000; else sleep $4; fi ;;
 esac
 echo "end $$" >> LOG
 `
@@ -234,6 +291,10 @@ func (t c20Tmpl) plus() bool { return t.Variant == 0 || t.Variant == 1 }
 func (t c20Tmpl) q() bool    { return t.Variant == 0 || t.Variant == 3 }
 func (t c20Tmpl) cmd(kind string) string {
 	s := fmt.Sprintf("sh %s %d %s N={n}", c20Script, t.ID, kind)
+	if _, ok := c20ParseEOF(kind); ok {
+		// the script must be the process fzf started: a wrapping `sh -c` that stays around would keep the pipe open
+		s = "exec " + s
+	}
 	if t.q() {
 		s += " Q={q}"
 	}
@@ -297,7 +358,9 @@ func c20Diff(a, b c20UI) []Val {
 var c20Items = []string{"abc", "acb", "bac", "bca", "cab", "cba", "ab", "ba", "ac", "ca", "bc", "cb", "a", "b", "c",
 	"aab", "abb", "bcc", "cca", "aaa", "bbb", "ccc", "abca", "cabc"}
 
-var c20Policy = L(I(1), I(2)) // the machine of the tree: poll (b3cab5f), exit waits for the previewer goroutine (5b17ce0)
+// the machine of the tree: poll (b3cab5f), exit waits for the previewer goroutine (5b17ce0), goroutine 3 is told to
+// stop only after cmd.Wait() has returned (third component 0)
+var c20Policy = L(I(1), I(2), I(0))
 
 func c20ActionString(a string, kind string, nextID *int, tm *c20Tmpl) (post string, direct int) {
 	switch {
@@ -871,6 +934,12 @@ func c20Run(c *Ctx, cs c20Case) (res c20Result) {
 				f.Known = "c20-batched-refresh"
 			}
 			add(f)
+			// the deadline has passed and the preview has not caught up: whatever is alive now and is not the command for
+			// the current state has been superseded for (almost) 10 s, far beyond the 500 ms grace period
+			if !noStale {
+				g := c20Finding{Kind: "spec", Name: "superseded_terminated", Impl: fmt.Sprint("alive 10 s after the last action: ", al, " of ", starts), Expect: "superseded commands are terminated; command for the current state: " + expv.String(), Liveness: true, Known: f.Known}
+				add(g)
+			}
 		}
 		if !atMost {
 			add(c20Finding{Kind: "spec", Name: "at_most_one_alive", Impl: fmt.Sprint("alive at quiescence: ", al, " of ", starts), Expect: "at most one"})
@@ -885,7 +954,7 @@ func c20Run(c *Ctx, cs c20Case) (res c20Result) {
 			}
 		}
 		// ---- preview window text ----
-		if visible && cu && !unforced && len(starts) > 0 && (cs.Kind == "instant" || cs.Kind == "short" || cs.Kind == "slowverbose" || cs.Kind == "foreverinc") {
+		if visible && cu && !unforced && len(starts) > 0 && c20KindPrints(cs.Kind) {
 			last := starts[len(starts)-1]
 			want := fmt.Sprintf("OUT:%d:N=", last.ID)
 			if last.N >= 0 {
@@ -940,7 +1009,13 @@ func c20Run(c *Ctx, cs c20Case) (res c20Result) {
 		}
 		// ---- correspondence with the model ----
 		if predicted && cs.Stream != "batch" {
-			mv := c.Model.Call(2001, L(c20Policy, c20Tmpl{ID: 1, Variant: cs.Tmpl}.val(), c20UI{Focus: -1}.val(), L(labels...)))
+			// canonical schedule of the model: instant commands (2001), or commands that print, close their output and
+			// run on until they are killed (2007) for the kinds that do so
+			op := 2001
+			if e, ok := c20ParseEOF(cs.Kind); ok && e.Hang {
+				op = 2007
+			}
+			mv := c.Model.Call(op, L(c20Policy, c20Tmpl{ID: 1, Variant: cs.Tmpl}.val(), c20UI{Focus: -1}.val(), L(labels...)))
 			if mv.IsList && len(mv.L) >= 6 && len(mv.L[1].L) >= 6 {
 				reqs := []Val{}
 				for _, p := range mv.L[0].L {
@@ -1064,6 +1139,11 @@ func c20Check(c *Ctx, cs c20Case) {
 	rep.Count("stream=" + cs.Stream)
 	if _, isChunk := c20ParseChunk(cs.Kind); isChunk {
 		rep.Count("kind=chunk")
+	} else if e, isEOF := c20ParseEOF(cs.Kind); isEOF {
+		rep.Count("kind=eof")
+		if e.Hang {
+			rep.Count("kind=eof_then_never_ending")
+		}
 	} else {
 		rep.Count("kind=" + cs.Kind)
 	}
@@ -1099,8 +1179,12 @@ func c20Check(c *Ctx, cs c20Case) {
 }
 
 func c20Gen(r *RNG, thorough bool) c20Case {
-	kinds := []string{"instant", "short", "slowsilent", "slowverbose", "foreversilent", "foreverinc", "foreverinc", "slowverbose"}
-	cs := c20Case{Stream: "hist", Kind: Pick(r, kinds), Tmpl: Pick(r, []int{0, 0, 0, 1, 2, 3}), Exit: Pick(r, []string{"accept", "abort", "sigterm"}), ExitUs: -1}
+	kinds := []string{"instant", "short", "slowsilent", "slowverbose", "foreversilent", "foreverinc", "foreverinc", "slowverbose", "eof", "eof"}
+	kind := Pick(r, kinds)
+	if kind == "eof" { // the output ends before the command does
+		kind = c20GenEOF(r)
+	}
+	cs := c20Case{Stream: "hist", Kind: kind, Tmpl: Pick(r, []int{0, 0, 0, 1, 2, 3}), Exit: Pick(r, []string{"accept", "abort", "sigterm"}), ExitUs: -1}
 	cs.Screen = r.Chance(1, 3)
 	cs.GapUs = Pick(r, []int{0, 300, 600, 900, 2000})
 	n := r.Range(3, 14)
@@ -1172,7 +1256,7 @@ var c20ShowSpecs = []string{"", "left", "up,50%", "right,60%", "down,40%", "righ
 // (change-preview-window with some layout, toggle-preview, show-preview): the preview must catch up with what
 // happened meanwhile.  Also plain layout changes of a visible window.
 func c20WinCase(r *RNG, i int) c20Case {
-	cs := c20Case{Stream: "pwin", Kind: Pick(r, []string{"instant", "instant", "short", "foreverinc", "slowverbose", "foreversilent"}),
+	cs := c20Case{Stream: "pwin", Kind: Pick(r, []string{"instant", "instant", "short", "foreverinc", "slowverbose", "foreversilent", "eof_1_0_hang"}),
 		Tmpl: Pick(r, []int{0, 0, 2, 3, 1}), Exit: Pick(r, []string{"accept", "abort", "sigterm"}), ExitUs: -1}
 	p := func() int { return Pick(r, []int{20, 40, 60, 100, 150}) }
 	initHidden := i%4 == 3
@@ -1283,9 +1367,73 @@ func c20ScrollCase(r *RNG, i int) c20Case {
 	return cs
 }
 
+// c20EofCase: preview commands whose OUTPUT ends before they do (they print, close stdout/stderr and run on, for ever
+// or for a while).  For fzf the end of the output is not the end of the command: it stays the one preview command
+// that is alive, it must be terminated when it is superseded (at any distance from its EOF: long after it, around it,
+// before it) and it must not survive the session (ended after quiescence, with no action at all, or right after a
+// superseding move).  Shapes by i%5; all pauses, actions and kinds from the generator.
+func c20EofCase(r *RNG, i int) c20Case {
+	cs := c20Case{Stream: "eof", Kind: c20GenEOF(r), Tmpl: Pick(r, []int{0, 0, 1, 2, 3}),
+		Exit: Pick(r, []string{"accept", "abort", "sigterm"}), ExitUs: -1, GapUs: Pick(r, []int{0, 300, 900, 2000})}
+	act := func() string { return Pick(r, []string{"up", "up", "down", "toggle", "up", "put:a", "refresh"}) }
+	switch i % 5 {
+	case 0: // superseded long after its output has ended: every step waits for the previous command's EOF
+		n := r.Range(2, 4)
+		for k := 0; k < n; k++ {
+			cs.Steps = append(cs.Steps, c20Step{A: act(), P: Pick(r, []int{250, 400, 600}), C: true})
+		}
+	case 1: // superseded around / before the end of its output, also in back-to-back groups
+		n := r.Range(3, 6)
+		for k := 0; k < n; k++ {
+			st := c20Step{A: Pick(r, []string{"up", "down", "toggle", "up"}), P: Pick(r, []int{0, 3, 20, 40, 60, 120})}
+			if r.Chance(1, 3) {
+				st.B = []string{Pick(r, []string{"up", "down", "toggle"})}
+			} else {
+				st.C = r.Chance(1, 2)
+			}
+			cs.Steps = append(cs.Steps, st)
+		}
+		cs.Steps = append(cs.Steps, c20Step{A: Pick(r, []string{"up", "toggle"}), P: Pick(r, []int{0, 30, 300}), C: true})
+	case 2: // nothing happens at all: the first command's output ends, it runs on, the session ends
+		if r.Chance(1, 2) {
+			cs.Steps = append(cs.Steps, c20Step{A: "refresh", P: Pick(r, []int{200, 400}), C: true})
+		}
+	case 3: // the window goes away while such a command runs and comes back after a move
+		cs.Steps = append(cs.Steps, c20Step{A: "up", P: Pick(r, []int{100, 300}), C: true},
+			c20Step{A: Pick(r, []string{"cpw:hidden", "toggle-preview", "hide-preview"}), P: Pick(r, []int{50, 300})},
+			c20Step{A: Pick(r, []string{"up", "toggle", "down"}), P: Pick(r, []int{20, 100})},
+			c20Step{A: Pick(r, []string{"cpw:", "cpw:left", "toggle-preview", "show-preview", "cpw:right,60%"}), P: Pick(r, []int{50, 300}), C: true},
+			c20Step{A: act(), P: Pick(r, []int{100, 300}), C: true})
+	case 4: // the command itself is replaced (change-preview) while the old one runs on with its output closed
+		cs.Steps = append(cs.Steps, c20Step{A: "up", P: Pick(r, []int{100, 300}), C: true},
+			c20Step{A: fmt.Sprintf("change:%d", r.Intn(4)), P: Pick(r, []int{60, 300}), C: true},
+			c20Step{A: act(), P: Pick(r, []int{100, 300}), C: true})
+	}
+	return cs
+}
+
+// c20EofExitCase: the session ends while a command that has closed its output is alive: right after a superseding
+// move (inside the window between two commands), inside the grace period, or with nothing pending.
+func c20EofExitCase(r *RNG, i int) c20Case {
+	e := c20EOF{Lines: Pick(r, []int{1, 1, 0}), Pre: Pick(r, []float64{0, 0, 0.05}), Hang: true}
+	cs := c20Case{Stream: "exit", Kind: e.kind(), Tmpl: Pick(r, []int{0, 2}), Exit: Pick(r, []string{"accept", "abort", "sigterm"}), ExitUs: -1}
+	switch i % 3 {
+	case 0: // plain: one move, quiescence, end
+		cs.Steps = []c20Step{{A: "up", P: Pick(r, []int{100, 300})}}
+	case 1: // the end comes 0.2-1.2 ms after two moves that supersede the command
+		cs.Steps = []c20Step{{A: "up", P: 350}, {A: "up", B: []string{"up"}, P: 250}}
+		cs.GapUs = 200
+		cs.ExitUs = r.Range(200, 1200)
+	case 2: // the end comes 50-400 ms after
+		cs.Steps = []c20Step{{A: "up", P: 300}, {A: "up", B: []string{"up"}, P: 150}}
+		cs.ExitUs = r.Range(50, 400) * 1000
+	}
+	return cs
+}
+
 // c20SelInPlace: a scripted history around non-moving selection changes with a {+n} template.
 func c20SelInPlace(r *RNG, i int) c20Case {
-	cs := c20Case{Stream: "selinplace", Kind: Pick(r, []string{"instant", "short", "foreverinc", "slowverbose", "foreversilent", "instant"}),
+	cs := c20Case{Stream: "selinplace", Kind: Pick(r, []string{"instant", "short", "foreverinc", "slowverbose", "foreversilent", "instant", "eof_1_0_hang"}),
 		Tmpl: Pick(r, []int{0, 1, 1}), Exit: Pick(r, []string{"accept", "abort", "sigterm"}), ExitUs: -1}
 	p := func() int { return Pick(r, []int{3, 20, 40, 80}) }
 	k := 2 + i%2 // items selected
@@ -1315,7 +1463,7 @@ func c20SelInPlace(r *RNG, i int) c20Case {
 }
 
 func runC20(c *Ctx) {
-	c.Rep.Rule = "pty sessions with a logging preview command (instant / 50 ms / 6 s / never ending, silent or printing; templates with and without {q} and {+n}); random histories of up/down/toggle/typing/backspace/refresh-preview/change-preview/toggle-preview with pauses 0-80 ms and back-to-back groups; dedicated streams: two moves 0.3-1 ms apart, session end with a live / just superseded preview, selection toggled off/on without moving the cursor under a {+n} template, the window hidden (change-preview-window(hidden) / toggle-preview / hide-preview / hidden from the start) and brought back (change-preview-window with a layout / toggle-preview / show-preview) with moves, selections and typing in between, a scroll offset (+{2}-/2, +{2}-5, ~3,+{2}+3-/2, +N ...) with numbered output arriving in chunks separated by pauses of 0.35-0.6 s (window content read off an interpreted screen), never-ending output shorter than the requested offset (known finding), one batched action list; non-trivial = at least 3 commands started and 4 model labels (dedicated streams always); distinct by JSON of the case"
+	c.Rep.Rule = "pty sessions with a logging preview command (instant / 50 ms / 6 s / never ending, silent or printing; templates with and without {q} and {+n}); random histories of up/down/toggle/typing/backspace/refresh-preview/change-preview/toggle-preview with pauses 0-80 ms and back-to-back groups; dedicated streams: two moves 0.3-1 ms apart, session end with a live / just superseded preview, selection toggled off/on without moving the cursor under a {+n} template, the window hidden (change-preview-window(hidden) / toggle-preview / hide-preview / hidden from the start) and brought back (change-preview-window with a layout / toggle-preview / show-preview) with moves, selections and typing in between, a scroll offset (+{2}-/2, +{2}-5, ~3,+{2}+3-/2, +N ...) with numbered output arriving in chunks separated by pauses of 0.35-0.6 s (window content read off an interpreted screen), never-ending output shorter than the requested offset (known finding), commands whose output ends before they do (kinds eof_<lines>_<pre>_<post>: print, close stdout/stderr, run on for ever or for 0.2-6 s) superseded long after / around / before the end of their output, with the window hidden and shown, with change-preview, and with the session ending while they live (no action at all, after quiescence, 0.2-1.2 ms or 50-400 ms after a superseding move), one batched action list; non-trivial = at least 3 commands started and 4 model labels (dedicated streams always); distinct by JSON of the case"
 	if c.Replay != "" {
 		var cs c20Case
 		b, err := os.ReadFile(c.Replay)
@@ -1389,6 +1537,13 @@ func runC20(c *Ctx) {
 	for i, n := 0, c.N(2, 12); i < n; i++ {
 		cases = append(cases, c20StarvedCase(r, i))
 	}
+	// commands whose output ends before they do (they close stdout/stderr and run on)
+	for i, n := 0, c.N(10, 80); i < n; i++ {
+		cases = append(cases, c20EofCase(r, i))
+	}
+	for i, n := 0, c.N(6, 36); i < n; i++ {
+		cases = append(cases, c20EofExitCase(r, i))
+	}
 	// one batched action list (known: c20-batched-refresh)
 	cases = append(cases, c20Case{Stream: "batch", Kind: "instant", Tmpl: 0, Batch: "up+refresh-preview+down", Exit: "abort", ExitUs: -1,
 		Steps: []c20Step{{A: "up", P: 50}}})
@@ -1421,6 +1576,24 @@ func runC20(c *Ctx) {
 	w2 := c.Model.Call(2003, L(c20Policy, t0, u0, sched))
 	if !(w1.IsList && len(w1.L) == 2 && w1.L[0].I == 1) || !(w2.IsList && len(w2.L) == 2 && w2.L[0].I == 0) {
 		c.Rep.Disagreement(Disagreement{Kind: "corr", Name: "corr:C20.exit_window_witness", Input: "render;take;exit;spawn;process_end", Impl: w2.String(), Expect: w1.String()})
+	}
+	// regression witness [render; take; spawn; output; close_output; display; move 1; render]: on the machine that tells
+	// goroutine 3 to stop at the end of the output (third policy component 1) the state is stable with the request for item 1
+	// left in the mailbox; on the machine of the tree it is not stable (the kill is enabled)
+	sched = L(L(I(6)), L(I(8)), L(I(9)), L(I(15), Bytes("x")), L(I(22)), L(I(7)), L(I(0), I(1)), L(I(6)))
+	flags := func(v Val) (stable, quiescent, boxEmpty bool, ok bool) {
+		if !(v.IsList && len(v.L) == 2 && v.L[0].I == 1 && v.L[1].IsList && len(v.L[1].L) >= 2 && len(v.L[1].L[1].L) >= 6) {
+			return
+		}
+		f := v.L[1].L[1].L
+		return f[2].I == 1, f[1].I == 1, f[4].I == 1, true
+	}
+	e1 := c.Model.Call(2003, L(L(I(1), I(2), I(1)), t0, u0, sched))
+	e2 := c.Model.Call(2003, L(c20Policy, t0, u0, sched))
+	s1, q1, b1, ok1 := flags(e1)
+	s2, _, _, ok2 := flags(e2)
+	if !(ok1 && ok2 && s1 && !q1 && !b1 && !s2) {
+		c.Rep.Disagreement(Disagreement{Kind: "corr", Name: "corr:C20.finish_at_eof_witness", Input: "render;take;spawn;output;close_output;display;move;render", Impl: e2.String(), Expect: e1.String()})
 	}
 }
 
